@@ -38,6 +38,7 @@ import Driver.C02T
 import Driver.Bridge
 import Driver.AstT
 import Driver.ATree
+import Driver.ATreeEx
 import Driver.SViable
 /-!
 Line-protocol driver `jsight-model` (DESIGN.md §12). One request per line on stdin, one reply per
@@ -243,6 +244,7 @@ def handle (line : String) : String :=
   | "astt" :: r => Drv.AstT.handle r
   | "loadv" :: r => DLoadV.handle (r.headD "")
   | "atree" :: _ => Drv.ATreeD.handle line
+  | "atreeex" :: _ => Drv.ATreeExD.handle line
   | "omap" :: _ => DOMap.handle (restOf line)
   | "semn" :: _ => DSemN.handle (restOf line)
   | "sem" :: _ => DSem.handle (restOf line)
